@@ -69,7 +69,24 @@ Proof.
   destruct H as [H|[H|[H1 H2]]]; auto using reserved_private, baseline_private, underscore_private.
 Qed.
 
-(* the two deviations of the unrepaired code, on their recorded witnesses *)
+(* in today's code too: whatever member or helper is reached, its name is public *)
+Lemma served_name_public_asis : forall s r m a,
+  In (m, a) (fst (serve is_private_attribute quirks_asis s r)) -> a <> AHook ->
+  ~ In (m_name m) private_dunder_methods /\ ~ In (m_name m) reserved_baseline /\
+  ~ (t_startswith (m_name m) [95%N] = true /\ dunder_shaped (m_name m) = false).
+Proof.
+  intros s r m a H Ha. apply private_never_served_asis in H; [|auto].
+  repeat split; intro K.
+  - rewrite (reserved_private _ K) in H. discriminate.
+  - rewrite (baseline_private _ K) in H. discriminate.
+  - destruct K as [K1 K2]. rewrite (underscore_private _ K1 K2) in H. discriminate.
+Qed.
+
+(* the metadata cache of the current source is keyed by the class object (computed over the generated fact) *)
+Lemma cache_keyed_by_class : metadata_cache_keyed_by_class = true.
+Proof. vm_compute. reflexivity. Qed.
+
+(* the deviations, each on its recorded witness *)
 Lemma call_getter_refuted :
   In (w_secret, AGet) (fst (serve is_private_attribute q_getter_only w1_shape w1_request)) /\
   ~ explicitly_exposed is_private_attribute w1_shape w_secret.
@@ -82,3 +99,21 @@ Lemma private_property_refuted :
   In (w_hidden, AGet) (fst (serve is_private_attribute q_private_only w2_shape w2_request)) /\
   is_private_attribute (m_name w_hidden) = true.
 Proof. split. { vm_compute. left. reflexivity. } vm_compute. reflexivity. Qed.
+
+(* open: a plain instance attribute holding a callable instance of an @expose'd class is called *)
+Lemma helper_called_refuted :
+  serve is_private_attribute q_helper_only w4_shape w4_request = ([(w_tool, AHelper)], RepResult) /\
+  ~ legit is_private_attribute w4_shape RCall (r_names w4_request) w_tool AHelper.
+Proof.
+  split. { vm_compute. reflexivity. }
+  unfold legit, acc_fits. tauto.
+Qed.
+
+(* open: a call naming anything that does not exist runs the class's own __getattr__ *)
+Lemma hook_ran_refuted :
+  serve is_private_attribute q_hooks_only w5_shape w5_request = ([(w_getattr, AHook)], RepError) /\
+  ~ legit is_private_attribute w5_shape RCall (r_names w5_request) w_getattr AHook.
+Proof.
+  split. { vm_compute. reflexivity. }
+  unfold legit, acc_fits. tauto.
+Qed.
